@@ -235,6 +235,14 @@ class ShardCMCInit(Contract):
         out.append(("dicts-empty", a.get("minishard_dict") == {} and a.get("ro_minishard_dict") == {}))
         return out
 
+    bounded_bound = "shard_bits 0..64, shard keys {0, 1, 2^k-1, 2^(bits-1)}"
+
+    def bounded_models(self, cfg, tier):
+        for sb in range(0, 65):
+            for key in {0, 1, (1 << sb) - 1 if sb else 0, 1 << max(sb - 1, 0), 5}:
+                if key < (1 << 64) and (sb == 0 and key == 0 or key < (1 << max(sb, 1))):
+                    yield {"minishard_bits": 2, "shard_bits": sb, "preshift_bits": 1, "shard_key": key}
+
     def replay(self, model, cfg, ob_name):
         import math
         import numpy as np
